@@ -12,8 +12,9 @@ CONSTANTS
   NOwnMulti = 1
   StatesMulti = {"ACTIVE"}
   AgesMulti = {2}
+  IdxMulti = {1, 2}
   T = 2
 INIT Init
 NEXT Next
-INVARIANTS RoutingTotal ReplExact MultiSound Emit
+INVARIANTS RoutingTotal SnapshotSound ReplExact MultiSound Emit
 CHECK_DEADLOCK FALSE
